@@ -114,7 +114,16 @@ def main(tier, seed, replay=None):
                     rep.violation(dict(kind="inference-raised-on-the-marginalised-or-original-circuit", circuit=tab.brief(), keep=keep,
                                        marginalised=mtab.brief(), error=f"{type(e).__name__}: {e}"), True)
                     break
-                if sorted(int(v) for v in mroot.scope) != ks:
+                try:
+                    import copy as _cp
+                    twin = _cp.deepcopy(root); inpl = marginalize(twin, list(keep), copy=False)
+                    if json.dumps(G.Table(inpl).brief()) != json.dumps(mtab.brief()):
+                        oracle = dict(what="marginalize(copy=False) on a deep copy differs from marginalize(copy=True)", in_place=G.Table(inpl).brief())
+                except Exception as e:
+                    oracle = dict(what="marginalize(copy=False) raised where copy=True returned", error=f"{type(e).__name__}: {e}")
+                if oracle is not None:
+                    pass
+                elif sorted(int(v) for v in mroot.scope) != ks:
                     oracle = dict(what="scope of the marginalised circuit is not the kept set", scope=[int(v) for v in mroot.scope])
                 elif not np.allclose(E, E0, rtol=2e-4, atol=1e-9):
                     i = int(np.argmax(np.abs(E - E0)))
